@@ -3,6 +3,7 @@
 R20.1  string-shape abstract interpretation of every NameSanitizer name function: for *every* input string the result is
        non-empty, starts with an identifier-start character, contains only identifier characters, and is not a keyword
 R20.5  parameter names stored for the generators are fixed points of the sanitiser the generators re-apply (no suffix glued on after sanitising)
+R20.8  the sanitised key a schema is registered under never shadows another declared schema's name (both declarations survive, in either order)  [= R2.14]
 R20.7  schema references are resolved by their exact name, never by a sanitised / normalised key (names that sanitise alike stay distinct)  [= R2.10]
 R20.6  the tag grouping key is at least as coarse as the module / class / attribute names derived from a tag (tags have no de-dup step)     [= R7.7]
 R20.4  parameters of one operation keep distinct identifiers and none is dropped or merged (override keys, name-space consistency)  [= R4.4]
@@ -90,6 +91,10 @@ def run(repo: Repo, rep: Report, tier: str) -> None:
     from rules.c02 import rule_exact_registry_lookups
 
     rule_exact_registry_lookups(repo, rep, "R20.7")
+    # R20.8: ... and on the registration side the sanitised key never takes the place of another declared schema's name           [= R2.14]
+    from rules.c02 import rule_key_does_not_shadow_declared_name
+
+    rule_key_does_not_shadow_declared_name(repo, rep, "R20.8")
     # ---------------------------------------------------------------- R20.3 validated returns
     eg = repo.module("visit.model.enum_generator").classes.get("EnumGenerator")
     if eg is None:
